@@ -29,12 +29,16 @@ class C47(core.Prop):
             if log2.done:
                 import re
                 why = "signal-%d" % -log.rc if log.rc < 0 else "rc-%d" % log.rc
-                for l in log.err.splitlines():
+                m = re.search(r"Uncaught exception ([\w:]+) by [^:]*: (.*)", log.err)
+                lines = [] if m else log.err.splitlines()
+                if m:
+                    why = re.sub(r"[^a-z]+", "-", re.sub(r"\([^)]*\)", "", (m.group(1).split("::")[-1] + " " + m.group(2)).lower())).strip("-")[:60]
+                for l in lines:
                     m = re.match(r"^\[\s*[\d.]+\] \[[^\]]*\] (.*)$", l)
                     if m and not m.group(1).startswith(("Configuration change", "Oops! Deadlock", " - pid", "Current backtrace")) \
                             and "still active, awaiting" not in m.group(1) and not m.group(1).lstrip().startswith("#"):
                         why = re.sub(r"[^a-z]+", "-", re.sub(r"name \S+", "name", m.group(1).lower())).strip("-")[:50]
-                oc.bad("run-crashes-only-with-tracing:" + why + (":after-deadlock" if log.of("deadlock") else ""),
+                oc.bad("run-crashes-only-with-tracing:" + why,
                        "the program completes without tracing; with tracing: " + log.crash_text())
             else:
                 oc.invalid = True          # the program itself does not complete: not a matter of tracing
@@ -43,12 +47,41 @@ class C47(core.Prop):
         bad, stats = paje.validate(text)
         seen = set()
         finished = {l["a"] for l in log.of("body_end")}
+        # Actor::suspend on a suspended actor / Actor::resume on a running one fire their signals all the same: the trace gets a second push /
+        # a pop of a state that was never pushed
+        depth, unpaired = {}, set()
+        for l in log.of("actor_suspend", "actor_resume"):
+            d = depth.get(l["a"], 0)
+            if l["k"] == "actor_suspend":
+                if d >= 1:
+                    unpaired.add(l["a"])
+                depth[l["a"]] = d + 1
+            else:
+                if d == 0:
+                    unpaired.add(l["a"])
+                depth[l["a"]] = max(0, d - 1)
+        if unpaired:
+            labels.add("unpaired-suspend-resume")
+        # an actor that ends while one of its asynchronous communications is still pending leaves its "send"/"receive" state pushed (it is
+        # popped when the communication completes): tolerated
+        pending = set()
+        waited = {(r["a"], r["op"][1]) for r in log.ops() if r["op"][0] == "wait" and r.get("n_ret") is not None and "exc" not in r}
+        for r in log.ops():
+            if r["op"][0] in ("put_async", "get_async"):
+                h = r["op"][4] if r["op"][0] == "put_async" else r["op"][2]
+                if (r["a"], h) not in waited:
+                    pending.add(r["a"])
         for sig, msg, container in bad:
+            if "state-left-pushed" in sig and not sig.startswith("host-change:") and container is not None and container.rsplit("-", 1)[0] in pending:
+                labels.add("ended-with-a-pending-async-comm")
+                continue
             if "state-left-pushed" in sig and not sig.startswith("host-change:") and container is not None and container.rsplit("-", 1)[0] not in finished:
                 # an actor that was killed (kill, end of the simulation for a daemon, deadlock) while sleeping / computing / communicating never
                 # pops that state: its container goes away with it (tolerated: the statement is about what a running entity does)
                 labels.add("killed-in-a-state")
                 continue
+            if container is not None and container.rsplit("-", 1)[0] in unpaired and ("pop-on-empty" in sig or "state-left-pushed" in sig):
+                sig = "unpaired-suspend-resume:" + sig
             if sig not in seen:
                 seen.add(sig)
                 oc.bad(sig, msg)
